@@ -9,7 +9,7 @@ CLAIM = {
              "(to_df x cases x shuffle x parse x executor, enumerated) shows each DataFrame row pairing a setting with its own outputs, and the info side channel is defined wherever it is read; "
              "(R3) Dataset variables get dims fn_args + var_dims[name] with data paired to its own name and coordinates from the same combos; constants become coordinate-if-dimension-else-attribute; "
              "(R4) resources reach only the function's kwargs and are popped from every row, constants are recorded; (R5) every description field is forwarded to the like-named parameter at all 7 forwarding sites; "
-             "(R6) the description mappings passed in are not mutated; (R7) settings are built by lock-step appends with case values looked up by name; (R8) sibling cross-check: the DataFrame labeller pairs names with a result only after the 'one declared output = the result itself' convention was normalised, as the Dataset labeller does (an iterable single output must not be split). Not decided: xarray / pandas construction semantics and label-based selection, concat alignment options."),
+             "(R6) the description mappings passed in are not mutated; (R7) settings are built by lock-step appends with case values looked up by name; (R8) sibling cross-check: the DataFrame labeller pairs names with a result only after the 'one declared output = the result itself' convention was normalised, as the Dataset labeller does (an iterable single output must not be split); (R9) the xarray concat / merge calls assembling the results use no label- or value-destroying option (join in inner/left/right/override, compat='override'; library option table); (R10) Runner.run_cases binds tuple cases with the caller's fn_args if given, else the runner's declared order. Not decided: xarray / pandas construction semantics and label-based selection, concat alignment options."),
     "note": "Trusted base as C01, plus: Dataset.attrs setter copies its argument (xarray); field names are the repository's public parameter names.",
     "technique": "static analysis: interprocedural D-ORDER abstract interpretation with out-parameter summaries, forwarding-table cross-check, taint (resources) and no-mutation rules",
 }
@@ -27,6 +27,7 @@ def run(ctx):
     sweep.settings_construction_rule(ctx, "C03.R7")
     sweep.df_single_output_rule(ctx, "C03.R8")
     sweep.combine_options_rule(ctx, "C03.R9")
+    sweep.case_binding_rule(ctx, "C03.R10")
     prog = ctx.prog
     names = [CR + "." + n for n in ("combo_runner_to_ds", "results_to_ds", "results_to_df", "multi_concat", "get_ndim_first", "combo_runner_core")]
     names += [PREP + "." + n for n in ("parse_var_names", "parse_var_dims", "parse_combo_results", "dictify", "_str_2_tuple")]
